@@ -255,6 +255,8 @@ pub struct Known {
     pub class: String,
     pub key: String,
     pub what: String,
+    /// replay file of the finding, relative to the verif root
+    pub replay: String,
 }
 
 pub fn verif_root() -> String {
@@ -278,6 +280,7 @@ pub fn load_known() -> Vec<Known> {
             class: f.get("class").and_then(|x| x.as_str()).unwrap_or("").to_string(),
             key: f.get("key").and_then(|x| x.as_str()).unwrap_or("*").to_string(),
             what: f.get("what").and_then(|x| x.as_str()).unwrap_or("").to_string(),
+            replay: f.get("replay").and_then(|x| x.as_str()).unwrap_or("").to_string(),
         });
     }
     out
@@ -575,8 +578,30 @@ pub fn run_batch<P: Prop>(o: &Opts) -> i32 {
         viol_summ.push(json!({"class": class, "key": key, "count": count, "replay": path, "detail": v.detail}));
         exit = 1;
     }
+    // every listed open finding of this property is exercised on every run, whatever the seed:
+    // its committed replay file is executed and must still fail the same way
+    let mut stale: Vec<String> = vec![];
+    for k in known.iter().filter(|k| k.property == P::ID && !k.replay.is_empty()) {
+        let path = format!("{}/{}", verif_root(), k.replay);
+        let Ok(txt) = std::fs::read_to_string(&path) else { continue };
+        let Ok(rf) = serde_json::from_str::<ReplayFile>(&txt) else { continue };
+        if rf.engine != P::ENGINE {
+            continue;
+        }
+        let Ok(scn) = serde_json::from_value::<P::Scn>(rf.scenario.clone()) else { continue };
+        let mut st = RunStats::default();
+        match run_caught::<P>(&scn, &mut st) {
+            RunOutcome::Violation(v) if match_known(&known, P::ID, &v).map(|m| m.what == k.what).unwrap_or(false) => {
+                known_hit.entry(k.what.clone()).or_insert(0);
+            }
+            _ => stale.push(k.what.clone()),
+        }
+    }
     for (k, n) in &known_hit {
-        println!("KNOWN-FINDING: property={} {} (matched {} runs)", P::ID, k, n);
+        println!("KNOWN-FINDING: property={} {} (matched {} seeded runs)", P::ID, k, n);
+    }
+    for k in &stale {
+        println!("  note: the replay of a listed known finding no longer fails (was it repaired? then move it to 'fixed'): {}", k);
     }
     if !harness_errs.is_empty() {
         for h in harness_errs.iter().take(5) {
